@@ -34,6 +34,7 @@ type Profile struct {
 	BoundaryTo  []string // preferred deadline kinds for boundary-aimed block gaps
 	DecayBias   float64  // probability that an asset decays (default 0.35)
 	MinAssets   int      // at least this many assets (C19: several assets and reward denoms per validator)
+	PBurst      float64  // per block: start a packed scenario (same-block multi-denom/multi-validator exits, fan-in redelegations, ...)
 	PExport     float64  // per block: export/import (hard fork) at the block boundary
 	Clean       map[string]bool // preconditions of open known findings the generator must avoid (clean mode)
 }
@@ -148,6 +149,8 @@ type genState struct {
 	absent  map[int]int
 	lastWho int
 	unbondNs int64
+	futureOps    map[int][]Op // block index -> ops scheduled by a burst
+	futureSlash  map[int][]Op
 }
 
 func (g *genState) amtDelegate(denom int) *Amt {
@@ -433,7 +436,7 @@ func GenSchedule(prop string, seed, run uint64, p *Profile) *Schedule {
 	rng := NewRNG(mixSeed(seed, propOrdinal(prop), run))
 	cfg := genConfig(rng, p)
 	s := &Schedule{Version: 1, Property: prop, Seed: seed, Run: run, Config: cfg, Mode: "open"}
-	g := &genState{rng: rng, p: p, cfg: &s.Config, nvals: len(cfg.Validators), absent: map[int]int{}, unbondNs: cfg.UnbondingTimeNs}
+	g := &genState{rng: rng, p: p, cfg: &s.Config, nvals: len(cfg.Validators), absent: map[int]int{}, unbondNs: cfg.UnbondingTimeNs, futureOps: map[int][]Op{}, futureSlash: map[int][]Op{}}
 	nb := rng.Range(p.MinBlocks, p.MaxBlocks)
 	for bi := 0; bi < nb; bi++ {
 		b := Block{Dt: g.genDt(), Proposer: rng.Intn(8)}
@@ -459,6 +462,11 @@ func GenSchedule(prop string, seed, run uint64, p *Profile) *Schedule {
 		if rng.Chance(p.PSlash) {
 			b.Slashes = append(b.Slashes, Op{K: "slash_direct", Val: rng.Intn(g.nvals), Fraction: slashFractions[rng.Intn(len(slashFractions))], Age: int64(rng.Range(0, 2))})
 		}
+		if p.PBurst > 0 && rng.Chance(p.PBurst) {
+			g.burst(bi)
+		}
+		b.Slashes = append(b.Slashes, g.futureSlash[bi]...)
+		b.Ops = append(b.Ops, g.futureOps[bi]...)
 		nops := rng.Range(0, p.MaxOps)
 		for i := 0; i < nops; i++ {
 			b.Ops = append(b.Ops, g.genOp())
@@ -509,6 +517,8 @@ func profileFor(prop string) *Profile {
 	p := baseProfile()
 	p.Name = prop
 	switch prop {
+	case "C01":
+		p.PBurst = 0.08
 	case "C17":
 		p.ParamsWild = true
 		p.W["gov_params"] = 8
@@ -516,6 +526,7 @@ func profileFor(prop string) *Profile {
 		p.Dust = 0.3
 		p.PHalt = 0.08
 	case "C06", "C07", "C08":
+		p.PBurst = 0.15
 		p.PSlash, p.PEvidence, p.PDowntime = 0.18, 0.06, 0.05
 		p.W["undelegate"], p.W["redelegate"] = 22, 24
 		p.W["gov_create"], p.W["gov_update"], p.W["gov_delete"], p.W["gov_params"] = 1, 1, 0, 0
@@ -523,6 +534,7 @@ func profileFor(prop string) *Profile {
 		p.PBoundary = 0.3
 		p.MaxBlocks = 45
 	case "C02":
+		p.PBurst = 0.12
 		p.W["undelegate"] = 30
 		p.W["gov_staking_params"] = 3
 		p.SameBlock = 0.7
@@ -536,6 +548,7 @@ func profileFor(prop string) *Profile {
 		p.W["claim"] = 14
 		p.MinAssets = 3
 	case "C18":
+		p.PBurst = 0.1
 		p.PExport = 0.12
 		p.MaxBlocks = 40
 		p.W["undelegate"], p.W["redelegate"] = 20, 20
@@ -597,11 +610,13 @@ func profileFor(prop string) *Profile {
 		p.PSlash, p.PEvidence, p.PDowntime = 0.12, 0.05, 0.05
 		p.MaxBlocks = 40
 	case "C20":
+		p.PBurst = 0.12
 		p.W["undelegate"], p.W["redelegate"] = 26, 22
 		p.SameBlock = 0.75
 		p.PSlash = 0.08
 		p.MaxBlocks = 40
 	case "C15":
+		p.PBurst = 0.1
 		p.W["redelegate"] = 40
 		p.W["delegate"] = 25
 		p.SameBlock = 0.75
@@ -622,4 +637,50 @@ func profileFor(prop string) *Profile {
 func describeProfile(p *Profile) string {
 	return fmt.Sprintf("profile %s: blocks %d-%d, <=%d ops/block, slash %.2f evidence %.2f downtime %.2f crash %.2f gas %.2f dup %.2f boundary-dt %.2f halt %.2f",
 		p.Name, p.MinBlocks, p.MaxBlocks, p.MaxOps, p.PSlash, p.PEvidence, p.PDowntime, p.PCrash, p.PGas, p.PDup, p.PBoundary, p.PHalt)
+}
+
+// burst schedules a packed scenario over the next few blocks: the situations the properties single
+// out (several exits of one delegator in one block across validators/denoms, fan-in redelegations,
+// a destination emptied before the source is slashed) are rare under independent random ops.
+func (g *genState) burst(bi int) {
+	r := g.rng
+	who := r.Intn(g.cfg.Delegators)
+	na := len(g.cfg.Assets)
+	va := r.Intn(g.nvals)
+	vb := (va + 1 + r.Intn(max(1, g.nvals-1))) % g.nvals
+	vc := (vb + 1 + r.Intn(max(1, g.nvals-1))) % g.nvals
+	d1 := r.Intn(na)
+	d2 := (d1 + 1) % na
+	frac := slashFractions[r.Intn(len(slashFractions))]
+	amt := func() *Amt {
+		unit := mustInt(g.cfg.Assets[d1].Unit)
+		return &Amt{Abs: unit.MulRaw(int64(r.Range(1, 50))).String()}
+	}
+	exit := func() *Amt { return []*Amt{{Pct: r.Range(10, 90)}, {All: true}, {Pct: 50}}[r.Intn(3)] }
+	slashAt := bi + 2 + r.Intn(3)
+	switch r.Intn(4) {
+	case 0: // same block: exits from one validator in two denoms and from a second validator
+		g.futureOps[bi] = append(g.futureOps[bi], Op{K: "delegate", Who: who, Val: va, Denom: d1, Amt: amt()}, Op{K: "delegate", Who: who, Val: va, Denom: d2, Amt: amt()}, Op{K: "delegate", Who: who, Val: vb, Denom: d1, Amt: amt()})
+		g.futureOps[bi+1] = append(g.futureOps[bi+1], Op{K: "undelegate", Who: who, Val: va, Denom: d1, Amt: exit()}, Op{K: "undelegate", Who: who, Val: va, Denom: d2, Amt: exit()}, Op{K: "undelegate", Who: who, Val: vb, Denom: d1, Amt: exit()})
+		if r.Chance(0.5) {
+			g.futureOps[bi+1] = append(g.futureOps[bi+1], Op{K: "undelegate", Who: who, Val: va, Denom: d1, Amt: &Amt{Pct: 30}})
+		}
+		g.futureSlash[slashAt] = append(g.futureSlash[slashAt], Op{K: "slash_direct", Val: []int{va, vb}[r.Intn(2)], Fraction: frac, Age: 1})
+	case 1: // fan-in: two sources into one destination in one block, then one source is slashed
+		g.futureOps[bi] = append(g.futureOps[bi], Op{K: "delegate", Who: who, Val: va, Denom: d1, Amt: amt()}, Op{K: "delegate", Who: who, Val: vb, Denom: d1, Amt: amt()})
+		g.futureOps[bi+1] = append(g.futureOps[bi+1], Op{K: "redelegate", Who: who, Val: va, Dst: vc, Denom: d1, Amt: exit()}, Op{K: "redelegate", Who: who, Val: vb, Dst: vc, Denom: d1, Amt: exit()})
+		g.futureSlash[slashAt] = append(g.futureSlash[slashAt], Op{K: "slash_direct", Val: []int{va, vb}[r.Intn(2)], Fraction: frac, Age: 1})
+	case 2: // destination emptied (or partly emptied) before the source is slashed
+		g.futureOps[bi] = append(g.futureOps[bi], Op{K: "delegate", Who: who, Val: va, Denom: d1, Amt: amt()})
+		g.futureOps[bi+1] = append(g.futureOps[bi+1], Op{K: "redelegate", Who: who, Val: va, Dst: vb, Denom: d1, Amt: exit()})
+		g.futureOps[bi+2] = append(g.futureOps[bi+2], Op{K: "undelegate", Who: who, Val: vb, Denom: d1, Amt: exit()})
+		g.futureSlash[slashAt+1] = append(g.futureSlash[slashAt+1], Op{K: "slash_direct", Val: va, Fraction: frac, Age: 1})
+	default: // repeated exits from the same validator in one block plus a second delegator in the same bucket
+		who2 := (who + 1) % g.cfg.Delegators
+		g.futureOps[bi] = append(g.futureOps[bi], Op{K: "delegate", Who: who, Val: va, Denom: d1, Amt: amt()}, Op{K: "delegate", Who: who2, Val: va, Denom: d1, Amt: amt()})
+		g.futureOps[bi+1] = append(g.futureOps[bi+1], Op{K: "undelegate", Who: who, Val: va, Denom: d1, Amt: &Amt{Pct: 20}}, Op{K: "undelegate", Who: who, Val: va, Denom: d1, Amt: &Amt{Pct: 30}}, Op{K: "undelegate", Who: who2, Val: va, Denom: d1, Amt: exit()})
+		g.futureSlash[slashAt] = append(g.futureSlash[slashAt], Op{K: "slash_direct", Val: va, Fraction: frac, Age: 1})
+	}
+	g.addPos(who, va, d1)
+	g.lastWho = who
 }
